@@ -17,6 +17,9 @@
   two sides.  "Within the error bound" is a probabilistic statement about the
   hash function; it is NOT decided here: for `estimate` observations the measured
   relative error is only classified (in units of σ = 1.04/√m) for the evidence.
+  One consequence of the clause is independent of the hash function and is checked:
+  the sketch's error bound is below 100 % (σ ≤ 26 % already at the smallest precision),
+  so the estimate of a non-empty set is never 0.
 -/
 import Influx.Proto
 
@@ -41,12 +44,12 @@ deriving Repr
 def holdsOn : Obs → Bool
   | .regs _ l r => l == r
   | .count _ l r => l == r
-  | .estimate _ _ _ => true
+  | .estimate _ n est => !(decide (n > 0) && est == 0)
 
 def signature : Obs → String
   | .regs law _ _ => "merge-law-registers-differ-" ++ law.name
   | .count law _ _ => "merge-law-estimates-differ-" ++ law.name
-  | .estimate _ _ _ => "estimate"
+  | .estimate _ _ _ => "estimate-zero-for-nonempty-set"
 
 /-- relative error in units of σ = 1.04/√(2^p), as a coarse class (supporting data only).
     |est - n| / n ≤ kσ  ⇔  (est-n)² · 2^p · 10^4 ≤ k² · 104² · n². -/
